@@ -261,3 +261,280 @@ pub fn c31(args: &Args) -> i32 {
     let _ = BTreeMap::<u8, u8>::new();
     run.finish()
 }
+
+// ---------------------------------------------------------------------------
+// C28 — role lattice; viewers read-only; admin-only operations
+
+use inputlayer::auth::{authorize_kg_operation, authorize_statement, KgRole, Role};
+use inputlayer::statement::{parse_statement, IndexCreateOptions, LoadMode, MetaCommand, Statement};
+
+/// R5: the harness's own classification. No wildcard arm: a new variant fails the build.
+#[derive(Clone, Copy, PartialEq, Eq, Debug)]
+pub enum Class {
+    Read,
+    SessionOnly,
+    WritesFacts,
+    WritesRules,
+    WritesSchema,
+    KgLifecycle,
+    Acl,
+    IndexWrite,
+    AdminOnly,
+    Unclassified,
+}
+
+pub fn classify_meta(m: &MetaCommand) -> Class {
+    use MetaCommand::*;
+    match m {
+        KgShow | KgList | KgUse(_) => Class::Read,
+        KgCreate(_) | KgDrop(_) => Class::KgLifecycle,
+        RelList | RelDescribe(_) => Class::Read,
+        RelDrop(_) => Class::WritesFacts,
+        RuleList | RuleQuery(_) | RuleShowDef(_) => Class::Read,
+        RuleDrop(_) | RuleDropPrefix(_) | RuleEdit { .. } | RuleClear(_) | RuleRemove { .. } => Class::WritesRules,
+        SessionList | SessionClear | SessionDrop(_) | SessionDropName(_) => Class::SessionOnly,
+        IndexList | IndexStats(_) => Class::Read,
+        IndexCreate(_) | IndexDrop(_) | IndexRebuild(_) => Class::IndexWrite,
+        ClearPrefix(_) => Class::WritesFacts,
+        Compact => Class::AdminOnly,
+        Status | Debug(_) | Why(_) | WhyFull(_) | WhyNot(_) | Help | Quit => Class::Read,
+        AgentMessage(_) | AgentStart(_) | AgentSetup(_) | AgentExamples => Class::Read,
+        Load { .. } => Class::WritesFacts,
+        UserList | UserCreate { .. } | UserDrop(_) | UserPassword { .. } | UserRole { .. } => Class::AdminOnly,
+        ApiKeyCreate(_) | ApiKeyList | ApiKeyRevoke(_) => Class::AdminOnly,
+        KgAclList(_) => Class::Read,
+        KgAclGrant { .. } | KgAclRevoke { .. } => Class::Acl,
+    }
+}
+
+pub fn classify(s: &Statement) -> Class {
+    match s {
+        Statement::Meta(m) => classify_meta(m),
+        Statement::Insert(_) | Statement::Delete(_) | Statement::Update(_) => Class::WritesFacts,
+        Statement::TypeDecl(_) => Class::Unclassified,
+        Statement::SessionRule(_) | Statement::Fact(_) => Class::SessionOnly,
+        Statement::Query(_) => Class::Read,
+        Statement::SchemaDecl(d) => {
+            if d.persistent {
+                Class::WritesSchema
+            } else {
+                Class::SessionOnly
+            }
+        }
+        Statement::PersistentRule(_) => Class::WritesRules,
+        Statement::DeleteRelationOrRule(_) => Class::WritesFacts,
+    }
+}
+
+pub fn changes_persistent_state(c: Class) -> bool {
+    matches!(c, Class::WritesFacts | Class::WritesRules | Class::WritesSchema | Class::KgLifecycle | Class::Acl | Class::IndexWrite | Class::AdminOnly)
+}
+
+pub fn all_meta_variants() -> Vec<MetaCommand> {
+    use MetaCommand::*;
+    let s = || "x".to_string();
+    vec![
+        KgShow,
+        KgList,
+        KgCreate(s()),
+        KgUse(s()),
+        KgDrop(s()),
+        RelList,
+        RelDescribe(s()),
+        RelDrop(s()),
+        RuleList,
+        RuleQuery(s()),
+        RuleShowDef(s()),
+        RuleDrop(s()),
+        RuleDropPrefix(s()),
+        RuleEdit { name: s(), index: 0, rule_text: "x(X) <- e(X)".into() },
+        RuleClear(s()),
+        RuleRemove { name: s(), index: 0 },
+        SessionList,
+        SessionClear,
+        SessionDrop(0),
+        SessionDropName(s()),
+        IndexList,
+        IndexCreate(IndexCreateOptions { name: s(), relation: s(), column: s(), index_type: "hnsw".into(), metric: None, m: None, ef_construction: None, ef_search: None }),
+        IndexDrop(s()),
+        IndexStats(s()),
+        IndexRebuild(s()),
+        ClearPrefix(s()),
+        Compact,
+        Status,
+        Debug(s()),
+        Why(s()),
+        WhyFull(s()),
+        WhyNot(s()),
+        AgentMessage(s()),
+        AgentStart(s()),
+        AgentSetup(s()),
+        AgentExamples,
+        Help,
+        Quit,
+        Load { path: s(), mode: LoadMode::Default },
+        Load { path: s(), mode: LoadMode::Replace },
+        Load { path: s(), mode: LoadMode::Merge },
+        UserList,
+        UserCreate { username: s(), password: s(), role: "viewer".into() },
+        UserDrop(s()),
+        UserPassword { username: s(), password: s() },
+        UserRole { username: s(), role: "admin".into() },
+        ApiKeyCreate(s()),
+        ApiKeyList,
+        ApiKeyRevoke(s()),
+        KgAclList(None),
+        KgAclList(Some(s())),
+        KgAclGrant { kg_name: s(), username: s(), role: "owner".into() },
+        KgAclRevoke { kg_name: s(), username: s() },
+    ]
+}
+
+pub const STATEMENT_TEXTS: &[&str] = &[
+    "?e(X)",
+    "?e(X, Y), X > 1",
+    "+e(1)",
+    "+e[(1, 2), (3, 4)]",
+    "-e(1)",
+    "-e(X) <- e(X), X > 1",
+    "-e(X, Y), +e(X, 5) <- e(X, Y), Y < 3",
+    "+p(X) <- e(X)",
+    "p(X) <- e(X)",
+    "e(1)",
+    "+s(a: int, b: string)",
+    "s(a: int)",
+    "type Age: int",
+    "-e",
+    ".kg",
+    ".kg list",
+    ".kg create k",
+    ".kg use k",
+    ".kg drop k",
+    ".rel",
+    ".rel e",
+    ".rel drop e",
+    ".rule",
+    ".rule p",
+    ".rule def p",
+    ".rule drop p",
+    ".rule drop prefix p",
+    ".rule edit p 1 +p(X) <- e(X)",
+    ".rule clear p",
+    ".rule remove p 1",
+    ".session",
+    ".session clear",
+    ".session drop 1",
+    ".session drop p",
+    ".index",
+    ".index create i on d(v)",
+    ".index drop i",
+    ".index stats i",
+    ".index rebuild i",
+    ".clear prefix p",
+    ".compact",
+    ".status",
+    ".debug ?e(X)",
+    ".why ?e(X)",
+    ".why full ?e(X)",
+    ".why_not e(1)",
+    ".help",
+    ".load f.iql",
+    ".load f.iql --replace",
+    ".user list",
+    ".user create u pw viewer",
+    ".user drop u",
+    ".user password u pw",
+    ".user role u admin",
+    ".apikey create l",
+    ".apikey list",
+    ".apikey revoke l",
+    ".kg acl list",
+    ".kg acl grant k u editor",
+    ".kg acl revoke k u",
+];
+
+pub fn c28(args: &Args) -> i32 {
+    quiet_panics();
+    let run = Run::new(args, "exploration", 50.0, 300.0);
+    run.set_rule("every Statement variant (parsed from text) and every MetaCommand variant (constructed directly and parsed from text) x every KgRole and Role: lattice monotonicity, viewer never permitted a state-changing statement (R5 classification table in harness), admin-only operations refused to every non-admin on the conjunction of both gates. non-trivial = distinct (statement, role) pairs");
+    let mut stmts: Vec<(String, Statement)> = vec![];
+    let mut parsed_variants = std::collections::BTreeSet::new();
+    for t in STATEMENT_TEXTS {
+        match parse_statement(t) {
+            Ok(s) => {
+                let tag = match &s {
+                    Statement::Meta(m) => format!("Meta::{}", format!("{m:?}").split(['(', ' ', '{']).next().unwrap_or("")),
+                    other => format!("{other:?}").split(['(', ' ', '{']).next().unwrap_or("").to_string(),
+                };
+                parsed_variants.insert(tag);
+                stmts.push((format!("text:{t}"), s));
+            }
+            Err(e) => run.add("texts_rejected_by_parser", {
+                eprintln!("note: parser rejects {t:?}: {e}");
+                1
+            }),
+        }
+    }
+    for m in all_meta_variants() {
+        stmts.push((format!("meta:{m:?}"), Statement::Meta(m)));
+    }
+    run.put("statements", json!(stmts.len()));
+    run.put("parsed_variants", json!(parsed_variants));
+    // every non-Meta Statement variant must be represented
+    for need in ["Insert", "Delete", "Update", "TypeDecl", "SessionRule", "Fact", "Query", "SchemaDecl", "PersistentRule", "DeleteRelationOrRule"] {
+        if !parsed_variants.contains(need) {
+            run.machinery_error(format!("no parsed representative for Statement::{need}"));
+        }
+    }
+    let mut l = Local::default();
+    let kg_roles = [KgRole::Viewer, KgRole::Editor, KgRole::Owner];
+    let roles = [Role::Viewer, Role::Editor, Role::Admin];
+    for (si, (name, s)) in stmts.iter().enumerate() {
+        let cls = classify(s);
+        let kg: Vec<bool> = kg_roles.iter().map(|r| authorize_kg_operation(r, s).is_ok()).collect();
+        let gl: Vec<bool> = roles.iter().map(|r| authorize_statement(r, s).is_ok()).collect();
+        for (ri, _) in kg_roles.iter().enumerate() {
+            l.eval();
+            l.nontrivial((si * 8 + ri) as u64);
+            l.eval();
+            l.nontrivial((si * 8 + 4 + ri) as u64);
+        }
+        l.outcome(fnv(format!("{kg:?}{gl:?}").as_bytes()));
+        if run.want_sample() && si % 17 == 0 {
+            run.sample(json!({"statement": name, "class": format!("{cls:?}"), "kg_viewer_editor_owner": kg, "global_viewer_editor_admin": gl}));
+        }
+        let tag = name.split([':', '(', ' ', '{']).nth(1).unwrap_or("").to_string();
+        let case = json!({"statement": name});
+        if (kg[0] && !kg[1]) || (kg[1] && !kg[2]) {
+            run.violation(&format!("kg_lattice:{tag}"), case.clone(), format!("{name}: viewer/editor/owner = {kg:?}"));
+        }
+        if (gl[0] && !gl[1]) || (gl[1] && !gl[2]) {
+            run.violation(&format!("global_lattice:{tag}"), case.clone(), format!("{name}: viewer/editor/admin = {gl:?}"));
+        }
+        if changes_persistent_state(cls) && kg[0] {
+            run.violation(&format!("kg_viewer_can_write:{tag}"), case.clone(), format!("{name} classified {cls:?} is permitted to KgRole::Viewer"));
+        }
+        if matches!(s, Statement::Meta(MetaCommand::KgCreate(_))) && gl[0] {
+            run.violation("global_viewer_can_create_kg", case.clone(), "Role::Viewer may create knowledge graphs".into());
+        }
+        if cls == Class::AdminOnly {
+            for (gi, g) in roles.iter().enumerate() {
+                if *g == Role::Admin {
+                    continue;
+                }
+                for (ki, _k) in kg_roles.iter().enumerate() {
+                    if gl[gi] && kg[ki] {
+                        run.violation(&format!("admin_only_permitted_to_non_admin:{tag}"), case.clone(), format!("{name}: global {g:?} + kg role #{ki} both permit"));
+                    }
+                }
+            }
+            // the global gate alone must refuse (it is the only gate applied when no KG is involved)
+            if gl[0] || gl[1] {
+                run.violation(&format!("admin_only_passes_global_gate:{tag}"), case.clone(), format!("{name}: global gate viewer/editor/admin = {gl:?}"));
+            }
+        }
+        // text-parsed and directly constructed representatives of one variant must be treated alike: checked implicitly (both are in the list)
+    }
+    run.merge(l);
+    run.finish()
+}
